@@ -388,6 +388,7 @@ RULES = [
     ("R-C11-globals", 3, "who-may-write module-level state", rule_globals),
     ("R-C11-reload", 4, "library handle typestate", rule_reload),
     ("R-C11-cstate", 600, "generated kernels keep no state and leave the process state alone (all units)", _x3.make_cstate_rule("R-C11-cstate")),
+    ("R-C11-pymodel", 20, "python functions of the model files allocate no uninitialised memory and keep no state", _x3.rule_c11_pymodel),
     ("R-C11-views", 6, "caller arrays are selected by a copying mask before in-place edits", _x3.rule_c11_views),
 ]
 from . import folds as _folds
